@@ -4,14 +4,16 @@ CONSTANTS MaxLevel, Defmodes
 MCInit == \E d \in Defmodes : Init([modes |-> {"m1", "m2"}, defmode |-> d])
 BaseInputs == {[e |-> "tick", d |-> d] : d \in {0, 20000}} \cup {[e |-> "str", s |-> s] : s \in {"", "m1", "m2", "bogus"}}
           \cup {[e |-> "choose", s |-> s] : s \in {"m1", "m2", "None", "bogus"}}
-          \cup {[e |-> "start"], [e |-> "periodic"], [e |-> "disable"]}
+          \cup {[e |-> "start"], [e |-> "periodic"], [e |-> "disable"], [e |-> "endcomp"]}
 \* an autonomous period through run()
 RunInputs == {[e |-> "start", via |-> "run"], [e |-> "periodic", via |-> "run"], [e |-> "disable", via |-> "run", last |-> TRUE]}
 Inputs == BaseInputs \cup RunInputs
 MCNext == \E ev \in Inputs : EvNext(ev)
 MCSpec == MCInit /\ [][MCNext]_slvars
 Bound == TLCGet("level") <= MaxLevel /\ now <= 60000
-MCView == <<sh, now - t0, now - rt0, selStr, chooser, active, started, out, life, inRun>>
+MCView == <<sh, now - t0, now - rt0, selStr, chooser, active, started, out, life, inRun, exitReq>>
+\* endCompetition() while a mode is enabled: its on_disable() is still to come
+Probe_EndWhileEnabled == ~(exitReq /\ active # None)
 \* a mode was disabled from inside a run() period and the loop went on: nothing more is delivered
 Probe_DisabledMidRun == ~(inRun /\ active = None /\ \E m \in sh.modes : life[m] = "idle" /\ now > rt0 /\ chooser # None)
 EnabledAgrees == \A ev \in Inputs : EvEnabled(ev) = ENABLED EvNext(ev)
